@@ -25,7 +25,7 @@ let perr_name = function
   | E_multiple_rules -> "multiple_rules" | E_output_twice -> "output_twice"
   | E_dyndep_not_input -> "dyndep_not_input" | E_bad_escape -> "bad_escape"
   | E_unexpected_eof -> "unexpected_eof" | E_newline_version -> "newline_version"
-  | E_loading -> "loading" | E_fatal_cycle -> "cycle" | E_fatal_version -> "version"
+  | E_loading -> "loading" | E_include_depth -> "include_depth" | E_fatal_cycle -> "cycle" | E_fatal_version -> "version"
   | E_include_fuel -> "include_fuel" | E_overrun -> "overrun" | E_loop_fuel -> "loop_fuel"
   | E_lookup_fuel -> "lookup_fuel"
 
